@@ -66,7 +66,7 @@ NoCall == [op |-> "none", job |-> 0, qi |-> 0, b |-> 0, n |-> 0, at |-> 0, snap 
            solo |-> FALSE, quiet |-> FALSE, ref |-> "unknown", same |-> FALSE, rankFloor |-> -1, closedBefore |-> FALSE, qclosedBefore |-> FALSE, waitedBefore |-> FALSE]
 NoHdr == [ev |-> "reset", ep |-> "", mode |-> "gated", wk |-> "plain", conc |-> 1, ncpu |-> 1, queues |-> <<>>, jobs |-> <<>>,
           batches |-> <<>>, clients |-> <<>>, expiry |-> 0, ratio |-> 0, ctx |-> FALSE, strategy |-> "rr",
-          idgen |-> FALSE, wsids |-> FALSE, nobind |-> FALSE, family |-> "", consumers |-> 1, preload |-> <<>>]
+          idgen |-> FALSE, wsids |-> FALSE, quiet |-> FALSE, nobind |-> FALSE, family |-> "", consumers |-> 1, preload |-> <<>>]
 
 SumSeq(s) == LET F[i \in 0..Len(s)] == IF i = 0 THEN 0 ELSE F[i - 1] + s[i] IN F[Len(s)]
 Max(S) == CHOOSE x \in S : \A y \in S : y <= x
@@ -422,7 +422,9 @@ C07_Own == IsRet("Result") /\ E.res = "val" /\ E.job \in Jobs => <<E.v, E.ecls, 
 C07_Same == IsRet("Result") /\ E.res = "val" /\ E.job \in Jobs /\ lastRes[E.job] # <<>> => <<E.v, E.ecls, E.ekey>> = lastRes[E.job]
 C07_NoCrash == ~crashed
 FailedJobs == {j \in Jobs : exits[j] >= 1 /\ (OutOf(j) = "panic" \/ (OutOf(j) = "err" /\ hdr.wk # "plain"))}
-C07_FailCount == Quiescent /\ Inflight = {} => E.fail = Cardinality(FailedJobs) /\ E.succ = Cardinality({j \in Jobs : exits[j] >= 1}) - Cardinality(FailedJobs)
+\* (flood episodes log the quiescence line only: thousands of failing jobs, nobody reads Errs())
+C07_NotDisabled == Quiescent /\ hdr.quiet => E.processing = 0 /\ E.pending = 0 /\ E.blocked = <<>> /\ E.fail + E.succ = E.sub
+C07_FailCount == Quiescent /\ Inflight = {} /\ ~hdr.quiet => E.fail = Cardinality(FailedJobs) /\ E.succ = Cardinality({j \in Jobs : exits[j] >= 1}) - Cardinality(FailedJobs)
 
 ---- \* C08 batches
 Executed(b) == {j \in ItemsOf(b) : exits[j] >= 1}
